@@ -87,7 +87,8 @@ fn shutdown(engine: Arc<Eng>) {
 
 #[derive(Default)]
 struct RunOut { outs: Vec<OpOut>, crash: Option<String>, /** logical write batches in the store after each shutdown (restarts, then the final one) */ batches_at_shutdown: Vec<u64>,
-    /** (`run_items_s` with `state`) the digest of the engine's persistent bookkeeping (eng::state_digest) after every completed op */ states: Vec<String> }
+    /** (`run_items_s` with `state`) the digest of the engine's persistent bookkeeping (eng::state_digest) after every completed op */ states: Vec<String>,
+    /** (`state`) the digest right after the engine was opened, before any op; and right after every restart, before any op */ state0: Option<String>, restart_states: Vec<String> }
 
 /// Runs the items on `store`; the engine is shut down at the end (also after a panic inside: by unwinding).
 fn run_items(case: &PCase, cfg: ECfg, store: &Arc<MemStore>) -> RunOut { run_items_s(case, cfg, store, false) }
@@ -104,6 +105,8 @@ fn run_items_s(case: &PCase, cfg: ECfg, store: &Arc<MemStore>, state: bool) -> R
             rt.block_on(async {
                 let mut world: BTreeMap<u32, i64> = BTreeMap::new();
                 let (mut engine, mut sh) = open_engine(&store2, cfg, &case2.program, &world).await;
+                let big = case2.program.nodes.len() > 64;
+                if state { let d = state_digest_opts(&engine, &case2.program, !big, if big { 16 } else { 1 }).await; p2.lock().unwrap().state0 = Some(d); }
                 for it in &case2.items {
                     match it {
                         Item::Restart => {
@@ -112,6 +115,7 @@ fn run_items_s(case: &PCase, cfg: ECfg, store: &Arc<MemStore>, state: bool) -> R
                             p2.lock().unwrap().batches_at_shutdown.push(store2.log().iter().map(|c| c.logical).sum());
                             let (e, s) = open_engine(&store2, cfg, &case2.program, &world).await;
                             engine = e; sh = s;
+                            if state { let d = state_digest_opts(&engine, &case2.program, !big, if big { 16 } else { 1 }).await; p2.lock().unwrap().restart_states.push(d); }
                         }
                         Item::Op(op) => {
                             match tokio::time::timeout(std::time::Duration::from_secs(5), run_op(&engine, &sh, op)).await {
@@ -290,6 +294,24 @@ fn nontrivial(ops: &[Op]) -> bool {
 
 struct Failure { sig: String, desc: String, case: String }
 
+/// State-invariant oracle (eng::state_invariant_check) on one dumped state of a reopened / restarted engine: verified nodes
+/// hold the from-scratch values for the inputs that are committed in what the engine was opened on, backward edges are
+/// the inverse of the recorded dependencies, firewall sets of verified nodes follow from the dependencies.
+fn judge_digest(pid: &str, p: &Program, digest: &str, truth: &Truth, world: &BTreeMap<u32, i64>, what: &str, case_text: &str, failures: &mut Vec<Failure>, dist: &mut BTreeMap<String, u64>) {
+    if p.nodes.len() > 64 || !is_acyclic(p) { return; }
+    *dist.entry("state_dumps_judged_by_the_state_invariant_oracle".into()).or_insert(0) += 1;
+    let mut t = truth.clone();
+    for k in 0..p.nodes.len() as u32 { if p.kind(k) == Kind::External && !t.ext.contains_key(&k) { t.ext.insert(k, *world.get(&k).unwrap_or(&0)); } }
+    // an external node's stored value is whatever the world was when it was last (re)computed: taken from the digest itself
+    let leaves = digest_leaf_values(digest);
+    for (k, v) in &leaves { if p.kind(*k) == Kind::External { t.ext.insert(*k, *v); } }
+    let value_of = |k: u32| -> Option<i64> { if !defined(p, &t, k) { return None; } std::panic::catch_unwind(std::panic::AssertUnwindSafe(|| Scratch::new(p, &t).value(k).ok())).ok().flatten() };
+    for (which, d) in state_invariant_check(p, digest, &value_of) {
+        let sig = format!("{pid}:state-invariant:{which}");
+        if failures.iter().filter(|f| f.sig == sig).count() < 3 { failures.push(Failure { sig, desc: format!("{what}: {d}"), case: case_text.to_string() }); }
+    }
+}
+
 fn exec_key(e: &ExecRecord) -> String { format!("{}{:?}->{:?}", e.key, e.reads, e.result) }
 
 fn compare_runs(case: &PCase, a: &RunOut, b: &RunOut) -> Option<(String, String)> {
@@ -353,11 +375,16 @@ fn timestamp_of(t: &Tables) -> Option<u64> {
     None
 }
 
-struct CrashOut { opened: Result<(), String>, vals: Vec<String>, out: Option<OpOut>, crash: Option<String> }
+struct CrashOut { opened: Result<(), String>, vals: Vec<String>, out: Option<OpOut>, crash: Option<String>, /** (`--state`) digest before the query / after it */ d0: Option<String>, d1: Option<String> }
+
+/// `--state`: `probe` dumps the state of the reopened engine before any query and after the round
+static PROBE_STATE: std::sync::atomic::AtomicBool = std::sync::atomic::AtomicBool::new(false);
 
 /// open an engine on `store`, query `ks` in one round
 fn probe(program: &Program, cfg: ECfg, store: &Arc<MemStore>, world: &BTreeMap<u32, i64>, ks: &[u32]) -> CrashOut {
     let (program2, store2, world2, ks2) = (program.clone(), store.clone(), world.clone(), ks.to_vec());
+    let ds: Arc<std::sync::Mutex<(Option<String>, Option<String>)>> = Default::default();
+    let ds2 = ds.clone();
     let (tx, rx) = std::sync::mpsc::channel();
     let _ = std::thread::Builder::new().stack_size(256 << 20).spawn(move || {
         let rt = tokio::runtime::Builder::new_current_thread().enable_all().build().unwrap();
@@ -367,9 +394,12 @@ fn probe(program: &Program, cfg: ECfg, store: &Arc<MemStore>, world: &BTreeMap<u
             rt.block_on(async {
                 let (engine, sh) = open_engine(&store2, cfg, &program2, &world2).await;
                 o2.store(true, std::sync::atomic::Ordering::SeqCst);
+                let st = PROBE_STATE.load(std::sync::atomic::Ordering::Relaxed) && program2.nodes.len() <= 64;
+                if st { *ds2.lock().unwrap() = (Some(state_digest(&engine, &program2).await), None); }
                 let r = if ks2.is_empty() { Ok(None) } else {
                     match tokio::time::timeout(std::time::Duration::from_secs(5), run_op(&engine, &sh, &Op::Round(ks2.clone()))).await { Ok(o) => Ok(Some(o)), Err(_) => Err("hang".to_string()) }
                 };
+                if st && matches!(r, Ok(Some(_))) { let d = state_digest(&engine, &program2).await; ds2.lock().unwrap().1 = Some(d); }
                 shutdown(engine);
                 r
             })
@@ -377,12 +407,14 @@ fn probe(program: &Program, cfg: ECfg, store: &Arc<MemStore>, world: &BTreeMap<u
         drop(rt);
         let _ = tx.send((opened.load(std::sync::atomic::Ordering::SeqCst), match r { Ok(x) => x, Err(p) => Err(format!("panic: {}", panic_msg(&p))) }));
     });
-    match rx.recv_timeout(std::time::Duration::from_secs(20)) {
-        Ok((true, Ok(v))) => CrashOut { opened: Ok(()), vals: v.as_ref().map(|o| o.vals.clone()).unwrap_or_default(), out: v, crash: None },
-        Ok((true, Err(m))) => CrashOut { opened: Ok(()), vals: vec![], out: None, crash: Some(m) },
-        Ok((false, Err(m))) => CrashOut { opened: Err(m), vals: vec![], out: None, crash: None },
+    let got = rx.recv_timeout(std::time::Duration::from_secs(20));
+    let (d0, d1) = ds.lock().unwrap().clone();
+    match got {
+        Ok((true, Ok(v))) => CrashOut { opened: Ok(()), vals: v.as_ref().map(|o| o.vals.clone()).unwrap_or_default(), out: v, crash: None, d0, d1 },
+        Ok((true, Err(m))) => CrashOut { opened: Ok(()), vals: vec![], out: None, crash: Some(m), d0, d1 },
+        Ok((false, Err(m))) => CrashOut { opened: Err(m), vals: vec![], out: None, crash: None, d0: None, d1: None },
         Ok((false, Ok(_))) => unreachable!(),
-        Err(_) => CrashOut { opened: Ok(()), vals: vec![], out: None, crash: Some("hang (watchdog)".into()) },
+        Err(_) => CrashOut { opened: Ok(()), vals: vec![], out: None, crash: Some("hang (watchdog)".into()), d0: None, d1: None },
     }
 }
 
@@ -747,6 +779,8 @@ fn main() {
     let state_every: usize = a.rest.iter().position(|x| x == "--state-every").map(|i| a.rest[i + 1].parse().unwrap()).unwrap_or(1).max(1);
     let mut n_fixed_cases = 0usize;
     let (mut state_a, mut state_b): (Vec<String>, Vec<String>) = (vec![], vec![]);
+    // input of `drv_engine inv`: case / node lines, op lines each followed by `#D <digest>` (inv_ops.txt)
+    let mut inv_lines: Vec<String> = vec![];
     if mode == "c07" {
         let n_cases = a.n.unwrap_or(if thorough { 1500 } else { 60 });
         let mut cases: Vec<(PCase, ECfg)> = vec![];
@@ -814,6 +848,33 @@ fn main() {
                     (run_items_s(&case.without_restarts(), *cfg, &MemStore::new(cfg.group, false), true), run_items_s(case, *cfg, &MemStore::new(cfg.group, false), true))
                 } else { (RunOut::default(), RunOut::default()) };
                 if digest_this { bump(&mut dist, "state_digest_runs", 2); }
+                if digest_this && case.program.nodes.len() <= 64 && is_acyclic(&case.program) {
+                    // input of the Lean checker `drv_engine inv` + the state-invariant oracle: the run WITH restarts, every state
+                    // after an op and the state of every reopened engine before any op
+                    let cfgl = format!("cfg cap={} group={} workers={}\n", cfg.cap, cfg.group, cfg.workers);
+                    let case_text = cfgl.clone() + &text;
+                    let mut tl = text.lines();
+                    inv_lines.push(tl.next().unwrap().to_string());
+                    inv_lines.push(format!("# c07 case {case_no}")); inv_lines.push(cfgl.trim().to_string());
+                    for _ in 0..case.program.nodes.len() { inv_lines.push(tl.next().unwrap().to_string()); }
+                    let exp_s = expectations(&case.program, &ops, &sb.outs);
+                    let (mut oi, mut ri) = (0usize, 0usize);
+                    let empty = (Truth::default(), BTreeMap::new());
+                    for it in &case.items {
+                        match it {
+                            Item::Restart => { if let Some(d) = sb.restart_states.get(ri) {
+                                inv_lines.push("restart".into()); inv_lines.push(format!("#D {d}"));
+                                let (t, w) = if oi == 0 { &empty } else { &exp_s.truths[oi - 1] };
+                                judge_digest("C07", &case.program, d, t, w, &format!("right after restart #{} (before any query of the new engine)", ri + 1), &case_text, &mut failures, &mut dist);
+                            } ri += 1; }
+                            Item::Op(op) => { if let Some(d) = sb.states.get(oi) {
+                                inv_lines.push(op.render()); inv_lines.push(format!("#D {d}"));
+                                let (t, w) = &exp_s.truths[oi];
+                                judge_digest("C07", &case.program, d, t, w, &format!("after op {oi} `{}` of the run with restarts", op.render()), &case_text, &mut failures, &mut dist);
+                            } oi += 1; }
+                        }
+                    }
+                }
                 // the digest runs must behave like the compared runs as far as values go (sanity; walk orders may differ)
                 if digest_this && (sa.outs.len() != ra.outs.len() || sb.outs.len() != rb.outs.len()) { bump(&mut dist, "state_digest_runs_of_other_length", 1); }
                 let pre = 2 + case.program.nodes.len();
@@ -859,6 +920,7 @@ fn main() {
             std::fs::OpenOptions::new().create(true).append(true).open(format!("{}/norestart.txt", a.out)).and_then(|mut f| { use std::io::Write; f.write_all(format!("case\n{a_lines}").as_bytes()) }).unwrap();
         }
     } else if mode == "c08" {
+        if with_state { PROBE_STATE.store(true, std::sync::atomic::Ordering::Relaxed); }
         let n_cases = a.n.unwrap_or(if thorough { 400 } else { 14 });
         let mut cases: Vec<(PCase, ECfg)> = vec![];
         if let Some(rp) = &a.replay {
@@ -940,8 +1002,23 @@ fn main() {
                         cont_exp.push(ks.iter().map(|k| sc.value(*k).unwrap().to_string()).collect::<Vec<_>>().join(" "));
                         cont_ops.push(Op::Round(ks));
                     }
-                    let rr = run_items(&PCase { program: case.program.clone(), items: cont_ops.iter().cloned().map(Item::Op).collect(), cont: false }, *cfg, &pstore);
+                    let rr = run_items_s(&PCase { program: case.program.clone(), items: cont_ops.iter().cloned().map(Item::Op).collect(), cont: false }, *cfg, &pstore, with_state);
                     out.line(&format!("crash {logical}"), &format!("crashed {}", ts.map(|x| x.to_string()).unwrap_or("none".into()))); exp_lines.push(format!("crashed {t}"));
+                    if with_state && case.program.nodes.len() <= 64 && is_acyclic(&case.program) {
+                        // the reopened engine before any op, then after every op of the continuation
+                        let case_text = format!("cfg cap={} group={} workers={}\n{}crash {logical}\n", cfg.cap, cfg.group, cfg.workers, text);
+                        let mut tl = text.lines();
+                        inv_lines.push(tl.next().unwrap().to_string()); inv_lines.push(format!("# c08 case {evals} crash {logical} (prefix {p} of {} commits, timestamp {t}, continued)", log.len())); inv_lines.push(format!("cfg cap={} group={} workers={}", cfg.cap, cfg.group, cfg.workers));
+                        for _ in 0..case.program.nodes.len() { inv_lines.push(tl.next().unwrap().to_string()); }
+                        for o in &ops[..=sess_idx[t - 1]] { if let Op::Session(_) = o { inv_lines.push(o.render()); } }
+                        let mut tr = exp.truths[sess_idx[t - 1]].0.clone();
+                        let w = BTreeMap::new();
+                        if let Some(d) = &rr.state0 { inv_lines.push(format!("crash {logical}")); inv_lines.push(format!("#D {d}")); judge_digest("C08", &case.program, d, &tr, &w, &format!("reopened after a crash keeping {p} of {} commits (timestamp {t}), before any query", log.len()), &case_text, &mut failures, &mut dist); }
+                        for (j, op) in cont_ops.iter().enumerate() {
+                            if let Op::Session(ws) = op { for wr in ws { if let Write::Set(k, v) = wr { tr.inputs.insert(*k, *v); } } }
+                            if let Some(d) = rr.states.get(j) { inv_lines.push(op.render()); inv_lines.push(format!("#D {d}")); judge_digest("C08", &case.program, d, &tr, &w, &format!("crash keeping {p} of {} commits, continuation op {j} `{}`", log.len(), op.render().chars().take(50).collect::<String>()), &case_text, &mut failures, &mut dist); }
+                        }
+                    }
                     let mut post = String::new();
                     for (j, op) in cont_ops.iter().enumerate() {
                         post.push_str(&op.render()); post.push('\n');
@@ -982,6 +1059,16 @@ fn main() {
                 let _ = world;
                 let co = probe(&case.program, *cfg, &pstore, &world_end, &ks);
                 let opline = format!("crash {logical}");
+                if with_state && co.d0.is_some() && is_acyclic(&case.program) {
+                    let case_text = format!("cfg cap={} group={} workers={}\n{}crash {logical}\n", cfg.cap, cfg.group, cfg.workers, text);
+                    let mut tl = text.lines();
+                    inv_lines.push(tl.next().unwrap().to_string()); inv_lines.push(format!("# c08 case {evals} crash {logical} (prefix {p} of {} commits, timestamp {t})", log.len())); inv_lines.push(format!("cfg cap={} group={} workers={}", cfg.cap, cfg.group, cfg.workers));
+                    for _ in 0..case.program.nodes.len() { inv_lines.push(tl.next().unwrap().to_string()); }
+                    if t > 0 { for o in &ops[..=sess_idx[t - 1]] { if let Op::Session(_) = o { inv_lines.push(o.render()); } } }
+                    let w = BTreeMap::new();
+                    if let Some(d) = &co.d0 { inv_lines.push(opline.clone()); inv_lines.push(format!("#D {d}")); judge_digest("C08", &case.program, d, &truth, &w, &format!("reopened after a crash keeping {p} of {} commits (timestamp {t}), before any query", log.len()), &case_text, &mut failures, &mut dist); }
+                    if let Some(d) = &co.d1 { inv_lines.push(Op::Round(ks.clone()).render()); inv_lines.push(format!("#D {d}")); judge_digest("C08", &case.program, d, &truth, &w, &format!("crash keeping {p} of {} commits (timestamp {t}), after querying {:?}", log.len(), ks), &case_text, &mut failures, &mut dist); }
+                }
                 match &co.opened {
                     Err(m) => {
                         out.line(&opline, "open-failed"); exp_lines.push(format!("crashed {t}"));
@@ -1167,6 +1254,7 @@ fn main() {
     rep.push_str(&format!("\"oracle_failures\":[{}]", failures.iter().map(|f| format!("{{\"sig\":{},\"desc\":{},\"case\":{}}}", jstr(&f.sig), jstr(&f.desc), jstr(&f.case))).collect::<Vec<_>>().join(",")));
     rep.push('}');
     std::fs::write(format!("{}/expect.txt", a.out), exp_lines.join("\n") + "\n").unwrap();
+    if with_state && (mode == "c07" || mode == "c08") { std::fs::write(format!("{}/inv_ops.txt", a.out), inv_lines.join("\n") + "\n").unwrap(); }
     if with_state && mode == "c07" {
         std::fs::write(format!("{}/state_a.txt", a.out), state_a.join("\n") + "\n").unwrap();
         std::fs::write(format!("{}/state_b.txt", a.out), state_b.join("\n") + "\n").unwrap();
